@@ -8,6 +8,7 @@ import (
 	"bufio"
 	"fmt"
 	"io"
+	"os"
 	"os/exec"
 	"strconv"
 	"strings"
@@ -86,6 +87,10 @@ func (s *Solver) start() {
 	s.inRaw = in
 	s.in = bufio.NewWriterSize(in, 1<<16)
 	s.out = bufio.NewReaderSize(out, 1<<16)
+	if d := os.Getenv("VERIF_SMT_LOG"); d != "" && s.log == nil {
+		f, _ := os.CreateTemp(d, "smt-*.smt2")
+		s.log = f
+	}
 	s.defined = map[int32]bool{}
 	s.ndefs = 0
 	s.stack = nil
